@@ -3,7 +3,7 @@ import json, subprocess
 from lib import vlib
 
 RULE = ("calls: every exported callable of the builtins and of the fmt, json, strings and time modules x every argument tuple "
-        "TLC enumerates over a 28-value boundary pool (incl. a callable that fails returning no object) of every type (all tuples of length <= 2, and of length 3-4 with at most two "
+        "TLC enumerates over a 29-value boundary pool (incl. a callable that fails returning no object, JSON text with a stray closing bracket) of every type (all tuples of length <= 2, and of length 3-4 with at most two "
         "positions differing from a small int; thorough: all triples), called through a real VM without panic recovery, each call "
         "under a 2 s watchdog in a restartable worker; a panic, a hang or a dead worker is a violation; the documented arity "
         "(UgoCallSigs, extracted from docs) is compared and reported as drift; non-trivial = calls whose argument count is "
